@@ -194,6 +194,13 @@ def run(job):
             acc.states += 1
             if check(acc, desc):
                 acc.nontrivial += 1
+        if (_idx // job["of"]) % 4 == 1:
+            # names that start with the prefixes the transform gives its copies (c0_, c1_, ...; an unrolled circuit
+            # that is unrolled again has inputs called c0_aux_in_*) - no generated name actually collides
+            ren = {"a": "c1_en", "b": "c0_aux_in_q", "g0": "c2_g", "g1": "c0_"}
+            acc.states += 1
+            if check(acc, space.rename(desc, ren)):
+                acc.nontrivial += 1
         if (_idx // job["of"]) % 8 == 0:
             acc.states += 2
             check(acc, desc, repeat=True)
